@@ -153,20 +153,41 @@ pub fn dump_cmd(args: &[String]) {
       let opt = samlang_optimization::optimize_sources(heap, copy, &config_of(mask));
       std::fs::write(format!("{}/mir_opt_{}.json", outdir, mask), crate::irjson::mir_sources(heap, &opt)).unwrap();
       written.push(format!("mir_opt_{}.json", mask));
-      if *mask == "11111" {
+      if *mask == "11111" || *mask == "00000" {
+        // the back half of the pipeline: what users get (11111) and, to keep every source function alive,
+        // the same lowering applied to the unoptimized program (00000)
+        let sfx = if *mask == "11111" { "".to_string() } else { format!("_{}", mask) };
         let mut lir = samlang_compiler::compile_mir_to_lir(heap, opt);
-        std::fs::write(format!("{}/lir.json", outdir), crate::irjson::lir_sources(heap, &lir)).unwrap();
+        std::fs::write(format!("{}/lir{}.json", outdir, sfx), crate::irjson::lir_sources(heap, &lir)).unwrap();
         let ts = lir.pretty_print(heap);
-        std::fs::write(format!("{}/all.ts", outdir), ts).unwrap();
+        std::fs::write(format!("{}/all{}.ts", outdir, sfx), ts).unwrap();
         let _ = &mut lir;
         let (wat, wasm) = samlang_compiler::compile_lir_to_wasm(heap, lir);
-        std::fs::write(format!("{}/all.wat", outdir), wat).unwrap();
+        std::fs::write(format!("{}/all{}.wat", outdir, sfx), wat).unwrap();
         let mut v = wasmparser::Validator::new_with_features(wasmparser::WasmFeatures::all());
+        let mut func_index: i64 = -1;
         let verr = match v.validate_all(&wasm) {
           Ok(_) => "null".to_string(),
-          Err(e) => json_str(&format!("{}", e)),
+          Err(e) => {
+            // which function body contains the offending offset
+            let mut k: i64 = 0;
+            for payload in wasmparser::Parser::new(0).parse_all(&wasm) {
+              if let Ok(wasmparser::Payload::CodeSectionEntry(body)) = payload {
+                let r = body.range();
+                if r.start <= e.offset() && e.offset() < r.end {
+                  func_index = k;
+                }
+                k += 1;
+              }
+            }
+            json_str(&format!("{}", e))
+          }
         };
-        std::fs::write(format!("{}/wasm_validation.json", outdir), format!("{{\"error\":{}}}", verr)).unwrap();
+        std::fs::write(
+          format!("{}/wasm_validation{}.json", outdir, sfx),
+          format!("{{\"error\":{},\"defined_function_index\":{}}}", verr, func_index),
+        )
+        .unwrap();
         written.push("lir.json".to_string());
         written.push("all.wat".to_string());
       }
